@@ -21,7 +21,7 @@ func init() {
 		Assume: []string{"a resumable upload is one operation whose window spans all its requests", "listings are not part of this workload", "porcupine Unknown is counted, never reported"},
 		Run:    runC07,
 	})
-	expectedProbes["C07"] = []string{"c07.same_generation_writers", "c07.patch_race", "c07.delete_vs_upload", "c07.reader_among_writers", "c07.lock_waited", "c07.cancel_fired", "c07.porcupine_ok", "c07.compose_vs_upload", "c07.cross_bucket_copy", "c07.append_by_compose", "c07.cancel_inside_err_call", "c07.copy_of_contended_source"}
+	expectedProbes["C07"] = []string{"c07.same_generation_writers", "c07.patch_race", "c07.delete_vs_upload", "c07.reader_among_writers", "c07.lock_waited", "c07.cancel_fired", "c07.porcupine_ok", "c07.compose_vs_upload", "c07.cross_bucket_copy", "c07.append_by_compose", "c07.cancel_inside_err_call", "c07.copy_of_contended_source", "c07.restart_after_race_equal"}
 }
 
 type c07In struct {
@@ -520,6 +520,34 @@ func runC07(r *Run) {
 			}
 			hist = append(hist, hop{c: 99, in: c07In{Kind: k, Op: op, Name: n, Desc: "final " + op.String()}, out: out, call: call, ret: evt})
 		}
+	}
+	if store == "file" {
+		// whatever the race left on disk, a new emulator on that directory (a kill between
+		// requests) serves exactly what the old one served at this quiescent point
+		w2 := w.Restart()
+		k := len(hist) - 2*len(names)
+		for _, n := range names {
+			for _, kind := range []string{"getmeta", "media"} {
+				op := gOp{Kind: map[string]string{"getmeta": "Get", "media": "Media"}[kind], Bucket: "bkt", Name: n}
+				resp := execG(w2, op)
+				before := hist[k].out
+				k++
+				after := c07Out{Status: resp.Status, HdrGen: resp.HdrGen, HdrMeta: resp.HdrMeta}
+				if resp.Meta != nil {
+					after.Gen, after.Metagen = resp.Meta.Gen, resp.Meta.Metagen
+					a, b := metaProj(resp.Meta)
+					after.Proj = a + "\x00" + b
+				}
+				if kind == "media" {
+					after.BodyH = fmt.Sprintf("%x", hashString(string(resp.Body)))
+				}
+				if after != before {
+					r.Fail("restart-differs", "", "after the concurrent requests, %s answers %+v; a new emulator on the same directory answers %+v", op, before, after)
+					return
+				}
+			}
+		}
+		r.Probe("c07.restart_after_race_equal")
 	}
 	for _, h := range hist {
 		r.Mix(fmt.Sprintf("%d%s|", h.out.Status, h.out.Proj))
